@@ -24,6 +24,25 @@ def body_stmt(rng, k):
     return ("mn", "DW", [A.num(rng.randrange(65536))])
 
 
+def label_offsets(stmts):
+    """real offsets of the labels of a body made of the simple statements above (sizes known from the ISA / directive
+    definitions: DB n bytes, DW 2n, DD 4n, RESB n, the one-byte no-operand instructions; directives emit nothing)"""
+    off, out = 0, {}
+    for st in stmts:
+        if st[0] == "label":
+            out[st[1]] = off
+        elif st[0] == "op":
+            off += 1
+        elif st[0] == "mn":
+            if st[1] in ("DB", "DW", "DD"):
+                off += {"DB": 1, "DW": 2, "DD": 4}[st[1]] * len(st[2])
+            elif st[1] == "RESB":
+                off += st[2][0][1][1][1]
+            else:
+                return None
+    return out
+
+
 def gen_coff_program(rng, big=False):
     """returns dict(prog=..., flat=prog without FORMAT, globals=[...] in declaration order, labels=[...], file=bytes|None)"""
     nlab = rng.choice([0, 1, 2, 3, 4, 6])
@@ -70,7 +89,11 @@ def gen_coff_program(rng, big=False):
         body.append(("label", l))
     for _ in range(rng.randrange(0, 4)):
         body.append(body_stmt(rng, 99))
+    if body and rng.random() < 0.3:
+        # a second section directive in the middle of the code: gosk emits one .text stream whatever the directive says
+        k = rng.randrange(1, len(body) + 1)
+        body = body[:k] + [("config", "SECTION", ("id", rng.choice([".text", ".data"])))] + body[k:]
     mid = [("global", g) for g in before] + [("config", "SECTION", ("id", ".text"))] + body + [("global", g) for g in after]
     decl_order = [n for g in before for n in g] + [n for g in after for n in g]
-    return {"prog": head + mid, "flat": head[1:] + mid, "globals": decl_order, "labels": labels, "file": file,
+    return {"prog": head + mid, "flat": head[1:] + mid, "globals": decl_order, "labels": labels, "file": file, "addr": label_offsets(body),
             "dup": len(set(decl_order)) != len(decl_order), "longfile": file is not None and len(file) > 18}
